@@ -41,7 +41,21 @@ RACE_LVSS = [H("races", "race_lvss", 2, 3, args=[4, 0, 0], **{"max-failures": 60
 # reference model as the unwrapped tree); sch_any covers any_scheduler; strm_seq covers type_erased_stream
 CORO = [H("coro", "coro_return_throws")] + [H("coro", "coro_script", args=list(a)) for a in ((0, 0, 0), (0, 1, 0), (0, 0, 1), (0, 1, 1), (1, 0, 0), (1, 1, 0), (1, 0, 1))] + [
     H("coro", "coro_script", args=[2, 0, 0], thorough_only=True), H("coro", "coro_script", args=[1, 1, 1], thorough_only=True)]
+# C20: the same enumerations in trace mode (every case's canonical observation trace is its outcome), run in every build
+# configuration and compared; trace_chain checks async_trace / async-stack balance inside each configuration
+ALL_CONFIGS = ["c17rel", "c17dbg", "c17relv", "c17dbgv", "c20rel", "c20dbg", "c20relv", "c20dbgv"]
+C20_HARNESSES = [H("expr", "expr_d1", args=[1], diff=True)] + [
+    H("expr", "expr_d2", args=[r, 0, 1, 1, 1], diff=True, weight=(6 if r >= 18 else 1), thorough_only=(r >= 18 and r not in (18, 20, 27))) for r in EXPR_D2_ROOTS] + [
+    H("expr", "expr_d2", args=[r, 1, 0, 1, 1], diff=True, weight=3) for r in (3, 9, 14)] + [
+    H("streams", "strm_seq", args=[a, 1], diff=True) for a in range(12)] + [
+    H("coro", "coro_script", args=list(a) + [1], diff=True, cxx20=True) for a in ((0, 0, 0), (0, 1, 0), (0, 0, 1), (0, 1, 1), (1, 0, 0), (1, 1, 0), (1, 0, 1))] + [
+    H("coro", "coro_script", args=[1, 1, 1, 1], diff=True, cxx20=True, thorough_only=True),
+    H("coro", "coro_return_throws", cxx20=True),
+    H("trace", "trace_chain"),
+]
 CHECKS = {
+    "C20": {"harnesses": C20_HARNESSES, "configs": {"quick": ["c17rel", "c20dbg", "c17dbgv", "c20relv"], "thorough": ALL_CONFIGS},
+            "header_matrix": True, "deadline": {"quick": 600, "thorough": 3000}},
     "C19": {"harnesses": C19_HARNESSES},
     "C10": {"harnesses": CORO},
     "C11": {
